@@ -2,16 +2,20 @@
 
 Model:   specs/Stropping.tla.  P-layer: GoodAnswer (valid /\\ ~reserved \\/ error; identity on already-valid-unreserved) and
          Deterministic (memo).  I-layer: TokenEncoder.strop stage by stage (Encode, StropKw, StropPat, RecheckPat, HandlerPat,
-         RecheckKw, HandlerKw, RecheckEnc, HandlerEnc, Return, Reask*) with the handlers of lang/c and lang/cpp, parametrised by the
-         configuration data the harness reads from the live language objects on every run (reserved identifiers, reserved
-         patterns and encoding rules as regex syntax trees evaluated by the spec's own matcher, prefixes...).  TLC checks
-         I => P for all inputs of length 1..MaxLen over an abstract alphabet x 6 categories x configurations.
-spec->code: every terminal state of the model (question, predicted stage trace and answer) is replayed through the real
-         Language.filter_id (public) and through a stage-instrumented TokenEncoder; differences are drift, P judges the answers.
-code->spec: every configured reserved word with prefixed/suffixed/cased variants, all single ASCII characters, seeded random
-         unicode strings, x categories x languages x configuration overrides (other/empty prefix+suffix, other encoding prefix,
-         added reserved identifiers and patterns); each question is asked repeatedly (cache hit, after lru_cache eviction, on a
-         fresh language object, in a second process with another PYTHONHASHSEED); specs/StroppingTrace.tla judges every record.
+         RecheckKw, HandlerKw, RecheckEnc, HandlerEnc, [Verify*], Return, Reask*) with the handlers of lang/c and lang/cpp,
+         parametrised by the configuration DATA the harness reads from the live language objects on every run (reserved
+         identifiers, reserved patterns and encoding rules as regex syntax trees evaluated by the spec's own matcher, affixes).
+         TLC explores all inputs of length 1..MaxLen over a 15-symbol alphabet x 6 categories x 24 configurations (3 default +
+         7 override classes per language) and evaluates P on every terminal state.
+spec->code: every terminal state of the model (question, predicted stage trace, predicted answer, P's opinion of it) is replayed
+         through the real Language.filter_id (public) and through a stage-instrumented TokenEncoder.  An answer equal to a
+         P-approved prediction is accepted by the model run itself; everything else goes to the T-layer.  Differences from the
+         prediction are drift notes.
+code->spec: every configured reserved word with prefixed/suffixed/cased variants, all single ASCII/pool characters,
+         pattern-shaped strings, seeded random unicode strings x categories x languages x configuration overrides (other/empty
+         prefix+suffix, other encoding prefix, added reserved identifiers and patterns); each question is asked repeatedly (cache
+         hit, after lru_cache eviction, on a fresh language object, in a second process with another PYTHONHASHSEED);
+         specs/StroppingTrace.tla (P-layer operators) judges every record, and cross-checks its regex matcher against Python's.
 """
 import copy
 import json
@@ -578,6 +582,19 @@ def input_class(s):
     return "needs-encoding"
 
 
+def validate(ctx, recs, consts, batch=2500):
+    """tlc.validate_traces; a JVM that ends without any TLC message (killed from outside: OOM killer, a neighbour's cleanup) is retried"""
+    for attempt in range(3):
+        snap = {k: ctx.cov[k] for k in ("states", "transitions", "traces_validated_against_impl")}
+        try:
+            return tlc.validate_traces(ctx, "StroppingTrace", recs, batch=batch, constants=consts)
+        except MachineryFailure as ex:
+            if attempt == 2 or ": None None" not in str(ex).split("\n")[0]:
+                raise
+            ctx.cov.update(snap)
+            ctx.cov["tlc_retries"] = ctx.cov.get("tlc_retries", 0) + 1
+
+
 def judge(ctx, cfgs, recs, info, reverify, batch=None):
     """T-layer verdicts -> violations (P) / drift notes (I) / machinery failures (matcher cross-check)"""
     extra = set()
@@ -586,7 +603,7 @@ def judge(ctx, cfgs, recs, info, reverify, batch=None):
             extra.update(c for c in f if c >= 128)
     write_doc(ctx, cfgs, extra)
     consts = dict(T_CONSTS, Reverify="TRUE" if reverify else "FALSE")
-    rej = tlc.validate_traces(ctx, "StroppingTrace", recs, batch=batch or ctx.pick(2500, 4000), constants=consts)
+    rej = validate(ctx, recs, consts, batch or ctx.pick(2500, 4000))
     ndrift = 0
     for rid, clause in rej.items():
         r = info[rid]
@@ -673,7 +690,10 @@ def _tlc_jobs_main(d):
     spec = json.loads((d / "jobs.json").read_text())
 
     def one(j):
-        r = tlc.run_tlc(SPECS / "Stropping.tla", j["cfg"], spec["scratch"], workers=j["workers"], timeout=3000, xmx="2g", constants=j["constants"])
+        for attempt in range(3):
+            r = tlc.run_tlc(SPECS / "Stropping.tla", j["cfg"], spec["scratch"], workers=j["workers"], timeout=3000, xmx="2g", constants=j["constants"])
+            if r.ok or r.error is not None or r.violated is not None:
+                break   # (no verdict and no TLC message at all: the JVM was killed from outside; run it again)
         tmp = d / (j["name"] + ".tmp")
         tmp.write_text(json.dumps(r.__dict__))
         os.replace(tmp, d / (j["name"] + ".json"))
@@ -779,7 +799,6 @@ def code_to_spec_questions(ctx, cfgs, obs):
 
 
 def run(ctx):
-    import concurrent.futures
     cfgs = build_cfgs()
     check_patterns(ctx, cfgs)
     write_doc(ctx, cfgs)
@@ -796,7 +815,6 @@ def run(ctx):
 
     # ---- TLC jobs, all started now: (a) the bounded design I => P together with the emission of every terminal state, one JVM per
     # (default configuration, category) resp. per override configuration; (b) the same question asked twice; (c) controls.
-    spec = SPECS / "Stropping.tla"
     jobs = []
     # Emit evaluates the P-layer's GoodAnswer on the model's answer and prints it as `pok`; the harness requires pok of every terminal
     # state of a sound configuration, which is the invariant IRefinesP without evaluating it twice.  PipeAgrees (the composed operator
@@ -981,7 +999,7 @@ def selftests(ctx, cfgs, reverify):
         g["id"] = i
     before = ctx.cov["traces_validated_against_impl"]
     write_doc(ctx, cfgs)
-    srej = tlc.validate_traces(ctx, "StroppingTrace", good + bad, constants=dict(T_CONSTS, Reverify="TRUE" if reverify else "FALSE"))
+    srej = validate(ctx, good + bad, dict(T_CONSTS, Reverify="TRUE" if reverify else "FALSE"))
     ctx.cov["traces_validated_against_impl"] = before
     if any(i in srej and not srej[i].startswith("drift") for i in range(len(good))):
         raise MachineryFailure("self-test base records are not accepted: %r" % srej)
